@@ -331,6 +331,22 @@ theorem proxy_index_diag_trans_mrange (m : MRef) (s1 e1 s2 e2 k : Nat) :
     ((m.range s1 e1 s2 e2).trans.diag).addr k = m.addr (s1 + k) (s2 + k) := by
   rw [proxy_index_diag, proxy_index_trans, proxy_index_mrange]
 
+/-- `to_vector(A)` of a container linearises in *storage* order: row by row for a row-major,
+column by column for a column-major container -/
+theorem proxy_index_linear_row_major (base n1 n2 k : Nat) :
+    (MRef.container base n1 n2 true).linear.addr k = (MRef.container base n1 n2 true).addr (k / n2) (k % n2) := by
+  simp only [MRef.container, MRef.linear, VRef.addr, MRef.addr, if_true, Nat.mul_one]
+  have := Nat.div_add_mod k n2
+  rw [Nat.mul_comm] at this
+  omega
+
+theorem proxy_index_linear_column_major (base n1 n2 k : Nat) :
+    (MRef.container base n1 n2 false).linear.addr k = (MRef.container base n1 n2 false).addr (k % n1) (k / n1) := by
+  simp only [MRef.container, MRef.linear, VRef.addr, MRef.addr, Bool.false_eq_true, if_false, Nat.mul_one]
+  have := Nat.div_add_mod k n1
+  rw [Nat.mul_comm] at this
+  omega
+
 /-- sizes of the proxies -/
 theorem proxy_size (m : MRef) (s1 e1 s2 e2 i : Nat) :
     ((m.range s1 e1 s2 e2).row i).size = e2 - s2 ∧ (m.trans).size1 = m.size2 ∧ (m.column i).size = m.size1 := by
